@@ -38,6 +38,28 @@ theorem identity_names :
 example : identityDecode [0x00, 0x41, 0x30, 0x42, 0x7F] = [0x41, 0x3042] := by decide
 example : specIdentity 2 [0x00, 0x41, 0x30, 0x42, 0x7F] = [0x41, 0x3042] := by decide
 
+/-! ## Which Unicode map: character collection × writing mode -/
+
+/-- A font without ToUnicode whose collection is not served by an embedded TrueType cmap reads the
+collection's CID → Unicode table **of the writing mode of its encoding CMap** (vertical CMaps have their own
+CIDs for rotated punctuation and brackets).  `COLLECTION_MAP_USES_WMODE` and `TTF_CODINGS` are regenerated
+from `PDFCIDFont.__init__`. -/
+theorem collection_map_follows_wmode (ordering coding enc : String) (hasTTF vertical : Bool)
+    (h : Gen.CIDFont.TTF_CODINGS.contains coding = false) :
+    selectUnicodeMap .absent ordering coding enc hasTTF vertical true = .collection coding vertical := by
+  unfold selectUnicodeMap
+  simp only [h, Gen.CIDFont.COLLECTION_MAP_USES_WMODE, Bool.false_eq_true, if_false, if_true, Bool.true_and]
+
+/-- A ToUnicode stream always wins; Adobe-Identity / Adobe-UCS use the embedded TrueType cmap. -/
+theorem unicode_map_priority (ordering coding enc : String) (hasTTF v shipped : Bool) :
+    selectUnicodeMap .stream ordering coding enc hasTTF v shipped = .file ∧
+    selectUnicodeMap .absent "Identity" "Adobe-Identity" enc true v shipped = .ttf ∧
+    selectUnicodeMap .absent "UCS" "Adobe-UCS" enc true v shipped = .ttf := by
+  refine ⟨rfl, ?_, ?_⟩ <;> simp [selectUnicodeMap, Gen.CIDFont.TTF_CODINGS]
+
+example : selectUnicodeMap .absent "Japan1" "Adobe-Japan1" "90ms-RKSJ-V" false true true
+    = .collection "Adobe-Japan1" true := by decide
+
 /-! ## Segmentation: table (trie) CMaps -/
 
 /-- A string that is a concatenation of codes of the CMap, followed by an incomplete code (possibly
